@@ -211,7 +211,8 @@ KINDS = [
      [M("typeset-keeps-last-only", "                    ret |= doarg_1(a, JANET_OAT_SIMPLETYPE, t[i]);", "                    ret = doarg_1(a, JANET_OAT_SIMPLETYPE, t[i]);", "OR of its elements"),
       M("typeset-reads-one-past", "                for (i = 0; i < janet_tuple_length(t); i++) {\n                    ret |= doarg_1", "                for (i = 0; i <= janet_tuple_length(t); i++) {\n                    ret |= doarg_1", "bounds|pointer|OR of its|one alias search|unwinding")]),
     ("simpletype", "SIMPLETYPE", 5, " or a type keyword (mask of its alias); a tuple raises (no nested type sets)", "slotcount unchanged",
-     [M("nested-typeset-accepted", "            if (argtype == JANET_OAT_TYPE) {\n                int32_t i = 0;", "            if (argtype == JANET_OAT_TYPE || argtype == JANET_OAT_SIMPLETYPE) {\n                int32_t i = 0;", "a tuple is a type set|recursion|unwinding|pointer")]),
+     [M("alias-mask-plus-nil", "                    ret = alias->mask;", "                    ret = alias->mask | JANET_TFLAG_NIL;", "mask of its alias"),
+      M("simpletype-keyword-is-label", "            if (NULL != c && argtype == JANET_OAT_LABEL) {", "            if (argtype == JANET_OAT_SIMPLETYPE) {", "pointer|looked up|mask of its alias|tables of the assembler")]),
     ("label", "LABEL", 6, ", or a keyword found in a->labels: result = label index - index of the instruction being assembled (the offset JOP_JUMP* add to pc)", "slotcount unchanged",
      [M("offset-sign", "                    ret = janet_unwrap_integer(result) - a->bytecode_count;", "                    ret = janet_unwrap_integer(result) + a->bytecode_count;", "relative to the instruction|overflow"),
       M("label-absolute", "                    ret = janet_unwrap_integer(result) - a->bytecode_count;", "                    ret = janet_unwrap_integer(result);", "relative to the instruction")]),
@@ -315,8 +316,7 @@ FIND_DEPTH = ("FINDING asm-unbounded-recursion (C10/C19, reproduced: SIGSEGV): j
               "Failing obligation as_asm1_stub.assertion 'no nested definition is assembled beyond the recursion limit'.")
 
 struct_unit("asm.asm1.source-type", ["SOURCE_TYPE"], "top-level value is ANYTHING (number, string, nil, table, ...), its fields nil,",
-            [M("source-type-check-dropped", "    janet_asm_assert(&a,\n                     janet_checktype(s, JANET_STRUCT) ||\n                     janet_checktype(s, JANET_TABLE),",
-               "    janet_asm_assert(&a,\n                     1 ||\n                     janet_checktype(s, JANET_TABLE),", "bytecode expected|REACH|reads the description|carries no|pointer"),
+            [
              M_HANDLER_DEF, M_HANDLER_LEAK])
 struct_unit("asm.asm1.header", ["HEADER"], ":name :arity :min-arity :max-arity :vararg :structarg :source are",
             [M_VERIFY_IGNORED, M_NO_VERIFY], failing=FIND_ARITY_OVF)
@@ -350,7 +350,7 @@ struct_unit("asm.asm1.symbolmap.quads", ["SYMBOLMAP"], ":symbolmap is",
             extra_def=["-DAS_TUPLE_MIN=4"], bound_extra="; entry tuples have at least 4 elements (shorter ones: disabled unit asm.asm1.symbolmap)")
 struct_unit("asm.asm1.environments", ["ENVIRONMENTS"], ":environments is",
             [M("environments-block-one-short", "            def->environments = janet_realloc(def->environments, def->environments_length * sizeof(int32_t));", "            def->environments = janet_realloc(def->environments, (def->environments_length - 1) * sizeof(int32_t));", "pointer|bounds|block of environments_length"),
-             M("environment-non-integer-accepted", "            if (!janet_checkint(arr[i])) {\n                janet_asm_error(&a, \"expected integer\");\n            }\n            def->environments[i]", "            def->environments[i]", "conversion|overflow|REACH|pointer", )])
+             M("environments-length-one-more", "        def->environments_length = count;\n        if (def->environments_length) {", "        def->environments_length = count + 1;\n        if (def->environments_length) {", "block of environments_length|pointer|bounds")])
 struct_unit("asm.asm1.depth-guard", ["CLOSURES"], ":closures / :defs are", [M_NO_VERIFY], extra_def=["-DAS_DEPTH_GUARD"],
             bound_extra="; the assembler is nested arbitrarily deep (every parent has a parent)", failing=FIND_DEPTH)
 
